@@ -65,6 +65,11 @@ type c11Scenario struct {
 
 var c11JWTKey = simkeys.FixtureKey("ec256")
 
+// issuer-templated key-set URL: issuer "ab" publishes c11JWTKey under the key id "c", issuer "a" publishes
+// c11JWTKey2 under the key id "bc" (URL and key id are taken from the token before anything is verified)
+var c11JWTKey2 = simkeys.FixtureKey("ec256b")
+var c11IssuerJWKS map[string][]byte
+
 func c11Digest(req *http.Request, body []byte) string {
 	h := sha256.New()
 	fmt.Fprintf(h, "%s %s\n", req.Method, req.URL.String())
@@ -94,6 +99,8 @@ func c11Parties(e *env) {
 		switch req.URL.Path {
 		case "/jwks":
 			w.Write(c11CurJWKS)
+		case "/jwks/ab", "/jwks/a":
+			w.Write(c11IssuerJWKS[strings.TrimPrefix(req.URL.Path, "/jwks/")])
 		case "/introspect":
 			vals := parseForm(string(body))
 			user := vals["token"]
@@ -451,6 +458,15 @@ func c11Build(s *simcore.Source) c11Scenario {
 		sc.rules = fmt.Sprintf(c11RuleTpl, "    - authenticator: mut\n    - finalizer: echo", "    - authenticator: mut2\n    - finalizer: echo")
 		sc.overrides = "twin-mechanism(trust in the key's certificate)"
 		sc.describe = "first=" + strings.TrimSpace(strings.SplitN(first, ":", 2)[0])
+		if s.Draw(3, "issuer-templated-url") == 2 {
+			// one authenticator for several issuers, the key-set URL rendered from the token's issuer
+			one := "    - id: mut\n      type: jwt\n      config:\n        jwks_endpoint:\n          url: http://idp/jwks/{{ .TokenIssuer }}\n        assertions:\n          issuers: [ \"ab\", \"a\" ]\n        validate_jwk: false\n        cache_ttl: 5m\n"
+			sc.mech = "mechanisms:\n  authenticators:\n" + one + "  finalizers:" + echo
+			sc.rules = fmt.Sprintf(c11RuleTpl, "    - authenticator: mut\n    - finalizer: echo", "    - authenticator: mut\n    - finalizer: echo")
+			sc.overrides, sc.variation = "", "issuer-templated-url"
+			sc.usesExtra, sc.extraHow = true, "selects issuer, key id and signing key of the presented token"
+			sc.describe = "issuer-templated key-set URL"
+		}
 	case "jwt-finalizer":
 		sc.party = ""
 		sc.mech = "mechanisms:\n  authenticators:" + c11Authn + "  finalizers:\n    - id: mut\n      type: jwt\n      config:\n        signer:\n          name: heimdall\n          key_store:\n            path: " + simkeys.FixturePath("ec256") +
@@ -514,6 +530,16 @@ func c11Do(e *env, sc c11Scenario, q c11Req) c11Obs {
 	if sc.kind == "jwt-authn" {
 		now := time.Now().Unix()
 		hdr["Authorization"] = "Bearer " + simkeys.SignJWT(c11JWTKey, "k1", map[string]any{"iss": "iss1", "sub": q.user, "iat": now - 1, "exp": now + 3600})
+		if sc.variation == "issuer-templated-url" {
+			key, kid, iss := c11JWTKey, "c", "ab" // extra "x": a token of issuer ab
+			switch q.extra {
+			case "y": // a token of issuer a
+				key, kid, iss = c11JWTKey2, "bc", "a"
+			case "xb": // claims issuer a and names its key id, but is signed with the key of issuer ab
+				key, kid, iss = c11JWTKey, "bc", "a"
+			}
+			hdr["Authorization"] = "Bearer " + simkeys.SignJWT(key, kid, map[string]any{"iss": iss, "sub": q.user, "iat": now - 1, "exp": now + 3600})
+		}
 	}
 	if q.extra != "" {
 		hdr["X-Extra"] = q.extra
@@ -543,6 +569,10 @@ func c11Sim(r *simcore.Run) {
 			defer sc.cleanup()
 		}
 		c11CurJWKS = sc.jwks
+		c11IssuerJWKS = map[string][]byte{
+			"ab": simkeys.JWKSJSON(jose.JSONWebKey{Key: c11JWTKey.Public(), KeyID: "c", Algorithm: string(simkeys.AlgFor(c11JWTKey)), Use: "sig"}),
+			"a":  simkeys.JWKSJSON(jose.JSONWebKey{Key: c11JWTKey2.Public(), KeyID: "bc", Algorithm: string(simkeys.AlgFor(c11JWTKey2)), Use: "sig"}),
+		}
 		// request history: each new request is an earlier one with at most one component changed
 		users, ids, rules, extras, extras2 := []string{"alice", "bob"}, []string{"1", "2"}, []string{"a", "b"}, []string{"x", "y", "xb"}, []string{"by", "y"}
 		n := 3 + s.Draw(8, "nreq")
